@@ -32,7 +32,8 @@ ASSUMPTIONS = [
 MINIMUMS = {
     'quick': {'evaluations': 3000, 'iterations_checked': 1200, 'replace_checked': 600,
               'set_checked': 500, 'shared_matching_nodes': 150, 'nested_matching_nodes': 100,
-              'root_matching_replace': 50, 'subclass_matches': 200},
+              'root_matching_replace': 50, 'subclass_matches': 200, 'tag_iterations_checked': 300,
+              'tag_iterations_with_several_matching_tags_on_one_argument': 60},
     'thorough': {'evaluations': 1000},
 }
 
@@ -115,8 +116,13 @@ def run_hidden(rng, acc):
 
 
 def run_case(rng, acc):
-  if rng.random() < 0.1:
+  r = rng.random()
+  if r < 0.1:
     return run_hidden(rng, acc)
+  if r < 0.25:
+    for _ in range(3):
+      run_tag_iteration(rng, acc)
+    return
   opts = gen.Opts(max_nodes=rng.choice([4, 8, 14]), max_depth=5, p_share=0.35, p_clone=0.1,
                   btypes=['Config', 'Config', 'Partial'], fns=FNS, lattice=0.0, leaves=LEAVES,
                   containers=['list', 'tuple', 'dict', 'point'], p_container=0.35, uid=False,
@@ -339,6 +345,70 @@ def _common_param(nodes):
     if common and cand in common:
       return cand
   return None
+
+
+def run_tag_iteration(rng, acc):
+  """Last clause: iterating a tag selection yields, for each selected ARGUMENT (once, however
+  many of its tags match), its value, else its default, else NO_VALUE. Expected values are read
+  off the Buildables found by the independent identity walk."""
+  import inspect
+  opts = gen.Opts(max_nodes=rng.choice([3, 6, 10]), max_depth=4, p_share=0.3, p_clone=0.1,
+                  btypes=['Config', 'Config', 'Partial'], fns=FNS, lattice=0.0, leaves=LEAVES,
+                  containers=['list', 'tuple', 'dict'], p_container=0.3, uid=False,
+                  dict_keys=['k', 'j', 3], explicit_tags=0.5)
+  root = gen.DagGen(rng, opts).dag(root_fn=rng.choice(FNS))
+  multi = 0
+  for n in gen.walk(root):
+    if isinstance(n, gen.B) and n.btype != 'TaggedValue':
+      names = [q.name for q in inspect.signature(n.fn).parameters.values()
+               if q.kind in (q.POSITIONAL_OR_KEYWORD, q.KEYWORD_ONLY)]
+      for k in names:
+        r = rng.random()
+        if r < 0.25:      # several tags on one argument, often from one hierarchy; set or unset
+          n.tags[k] = set(n.tags.get(k) or ()) | set(rng.sample(vtags.ALL, rng.randint(2, 3)))
+          multi += 1
+  sketch = gen.sketch(root)
+  cfg = gen.to_fiddle(root)
+  T = rng.choice(vtags.ALL + [fdl.Tag, fdl.Tag])
+  exp, multi_matching = [], 0
+  for b in C.identity_objects(cfg, include_internals=False).get('buildable', {}).values():
+    for k, ts in b.__argument_tags__.items():
+      hit = [t for t in ts if issubclass(t, T)]
+      if not hit:
+        continue
+      multi_matching += len(hit) >= 2
+      if k in b.__arguments__:
+        exp.append(b.__arguments__[k])
+        acc.obs('tag_iteration:value')
+        continue
+      q = inspect.signature(b.__fn_or_cls__).parameters.get(k) if isinstance(k, str) else None
+      if (q is not None and q.default is not q.empty
+          and type(q.default).__name__ != '_HAS_DEFAULT_FACTORY_CLASS'):
+        exp.append(q.default)
+        acc.obs('tag_iteration:default')
+      else:
+        exp.append(fdl.NO_VALUE)
+        acc.obs('tag_iteration:no-value')
+
+  def ident(x):
+    return repr(C.leaf(x)) if C.is_value(x) else f'id{id(x)}'
+
+  w = {'dag': sketch, 'tag': T.__name__}
+  try:
+    got = list(fsel.select(cfg, tag=T, check_nonempty=False))
+  except Exception as e:  # pylint: disable=broad-except
+    acc.violation(f'tag-selection-iteration:raises:{type(e).__name__}', repr(e)[:200], w)
+    return
+  acc.case((sketch, 'tag-iteration', T.__name__), bool(exp))
+  if sorted(map(ident, got)) != sorted(map(ident, exp)):
+    what = ('argument-yielded-more-than-once' if len(got) > len(exp) else
+            'argument-missing' if len(got) < len(exp) else 'wrong-values')
+    acc.violation(f'tag-selection-iteration:{what}',
+                  f'yielded {safe_repr(got, 120)}, expected {safe_repr(exp, 120)}', w)
+    return
+  acc.obs('tag_iterations_checked')
+  if multi_matching:
+    acc.obs('tag_iterations_with_several_matching_tags_on_one_argument')
 
 
 def run_late_abc(spec, acc):
